@@ -50,10 +50,20 @@ impl DVal {
 /// Snapshot a VM value. Safety: the value must belong to a live VM.
 pub fn deep(v: Value) -> DVal {
     let mut stack: Vec<*const CaoLangObject> = Vec::new();
-    deep_rec(v, &mut stack)
+    let mut budget = SNAPSHOT_NODE_BUDGET;
+    deep_rec(v, &mut stack, &mut budget)
 }
 
-fn deep_rec(v: Value, stack: &mut Vec<*const CaoLangObject>) -> DVal {
+/// A snapshot is a tree: a graph of tables that refer to each other unfolds into one node per path.
+/// Both snapshot functions (VM side and reference side) stop after the same number of nodes, in the
+/// same traversal order, so truncated snapshots still compare equal exactly when the graphs agree.
+pub const SNAPSHOT_NODE_BUDGET: usize = 20_000;
+
+fn deep_rec(v: Value, stack: &mut Vec<*const CaoLangObject>, budget: &mut usize) -> DVal {
+    if *budget == 0 {
+        return DVal::Other("too-large".into());
+    }
+    *budget -= 1;
     match v {
         Value::Nil => DVal::Nil,
         Value::Integer(i) => DVal::Int(i),
@@ -72,7 +82,7 @@ fn deep_rec(v: Value, stack: &mut Vec<*const CaoLangObject>) -> DVal {
                     stack.push(p);
                     let mut out = Vec::with_capacity(t.len());
                     for (k, v) in t.iter() {
-                        out.push((deep_rec(*k, stack), deep_rec(*v, stack)));
+                        out.push((deep_rec(*k, stack, budget), deep_rec(*v, stack, budget)));
                     }
                     stack.pop();
                     DVal::Table(out)
